@@ -965,6 +965,21 @@ def gen_descriptors(tier, rng):
             yield D("inner", [g.arr(s), g.arr(tuple(s[k:]) + (2,))], valid=False, n_modes=n)             # one mode more: rejected
             if L >= 2:
                 yield D("inner", [g.arr(s), g.arr(tuple(s[L - 1:]) + (2,) * (n - 1))], valid=False, n_modes=n)   # n modes, first one fitting
+            if n >= L + 2 and tuple(s[k:]) != (s[-1],):
+                yield D("inner", [g.arr(s), g.arr((s[-1],))], valid=False, n_modes=n)    # only the last mode: rejected (another slice rule would accept)
+    # inner whose common modes are a permutation of each other (sizes compared as sets would pair the wrong modes)
+    for s, sb in (((2, 3), (3, 2)), ((2, 2, 3), (3, 2, 2)), ((3, 2), (2, 3, 2)), ((1, 2), (2, 1))):
+        yield D("inner", [g.arr(s), g.arr(sb)], valid=False, n_modes=2)
+    # outer / batched_outer of four and five operands of different orders (a book-keeping variable that is not refreshed in every
+    # iteration shows only from the fourth operand on)
+    for _ in range(8 if quick else 40):
+        n = rng.choice([4, 4, 5])
+        b = rng.randint(1, 2)
+        feats = [rng.choice([(), (2,), (1, 2), (2, 1), (3,)]) for _ in range(n)]
+        feats[2] = rng.choice([(2,), (1, 2), (2, 1)])
+        if _prod([_prod(f) for f in feats]) <= 48:
+            yield D("batched_outer", [g.arr((b,) + f) for f in feats])
+            yield D("outer", [g.arr(f if f else (rng.choice([1, 2]),)) for f in feats])
 
 
 def backends_of(d):
